@@ -150,7 +150,9 @@ def for_item(rng, quirk):
         lines.append(uline(rng, quirk, extra_tags=("EACH", "each", "NUM", "ALPH", "EACH")))
     if rng.random() < 0.4:
         lines.append([["L", lit(rng, quirk)], ["T", "LAST"]])
-    if quirk and rng.random() < 0.3:
+    if rng.random() < (0.3 if quirk else 0.25):   # FIRST / LAST lines anywhere in the body (and possibly several of them)
+        if rng.random() < 0.3:
+            lines.append([["L", lit(rng, quirk)], ["T", rng.choice(["FIRST", "LAST"])]])
         rng.shuffle(lines)
     return ["F", h, lines]
 
